@@ -6,6 +6,7 @@ import (
 	"fmt"
 	"reflect"
 	"runtime"
+	"unsafe"
 
 	"verifmc/vrt"
 )
@@ -20,6 +21,7 @@ const (
 // waiter is a pending (parked) channel operation of one thread; a select registers one
 // waiter per case, all sharing the same group.
 type waiter struct {
+	tok  *byte // released by the parked party when it registered (its clock at park time)
 	g    *group
 	idx  int // case index within the select
 	dir  dir
@@ -34,6 +36,7 @@ type group struct {
 	sel    int
 	hbFrom uint64 // history of the partner that completed this group
 	step   int    // step at which the partner completed it
+	gotTok *byte  // token released by the partner that completed this group
 }
 
 type chanCore struct {
@@ -50,9 +53,27 @@ type chanCore struct {
 type Chan[T any] struct {
 	core chanCore
 	buf  []T
+	toks []*byte // one happens-before token per buffered element
+	ctok byte    // released by close
+}
+
+//go:norace
+func newTok() *byte {
+	t := new(byte)
+	vrt.RaceRelease(unsafe.Pointer(t))
+	return t
+}
+
+//go:norace
+func acq(t *byte) {
+	if t != nil {
+		vrt.RaceAcquire(unsafe.Pointer(t))
+	}
 }
 
 // Make replaces make(chan T, n).
+//
+//go:norace
 func Make[T any](n int) *Chan[T] {
 	c := &Chan[T]{}
 	c.core.capa = n
@@ -62,6 +83,7 @@ func Make[T any](n int) *Chan[T] {
 	return c
 }
 
+//go:norace
 func (c *Chan[T]) String() string {
 	if c == nil {
 		return "chan(nil)"
@@ -87,8 +109,10 @@ type RecvCase[T any] struct {
 	OK bool
 }
 
+//go:norace
 func NewRecv[T any](c *Chan[T]) *RecvCase[T] { return &RecvCase[T]{C: c} }
 
+//go:norace
 func firstOther(q []*waiter, self *group) *waiter {
 	for _, w := range q {
 		if w.g != self && !w.g.done {
@@ -98,6 +122,7 @@ func firstOther(q []*waiter, self *group) *waiter {
 	return nil
 }
 
+//go:norace
 func (r *RecvCase[T]) ready(self *group) bool {
 	c := r.C
 	if c == nil {
@@ -106,38 +131,45 @@ func (r *RecvCase[T]) ready(self *group) bool {
 	return len(c.buf) > 0 || c.core.closed || firstOther(c.core.sendq, self) != nil
 }
 
+//go:norace
 func (r *RecvCase[T]) exec(self *group) {
 	c := r.C
 	if len(c.buf) > 0 {
 		r.V, r.OK = c.buf[0], true
+		acq(c.toks[0])
 		var zero T
 		c.buf[0] = zero
-		c.buf = c.buf[1:]
+		c.buf, c.toks = c.buf[1:], c.toks[1:]
 		// a blocked sender can now move its value into the buffer
 		if w := firstOther(c.core.sendq, self); w != nil {
 			c.buf = append(c.buf, cast[T](w.val()))
-			complete(w)
+			c.toks = append(c.toks, w.tok)
+			complete(w, newTok())
 		}
 		return
 	}
 	if w := firstOther(c.core.sendq, self); w != nil {
 		r.V, r.OK = cast[T](w.val()), true
-		complete(w)
+		acq(w.tok)
+		// the receive happens before the completion of an unbuffered send
+		complete(w, newTok())
 		return
 	}
 	if c.core.closed {
 		var zero T
 		r.V, r.OK = zero, false
+		vrt.RaceAcquire(unsafe.Pointer(&c.ctok))
 		return
 	}
 	panic("vchan: recv exec on a case that is not ready")
 }
 
+//go:norace
 func (r *RecvCase[T]) register(g *group, idx int) {
 	if r.C == nil {
 		return
 	}
-	r.C.core.recvq = append(r.C.core.recvq, &waiter{g: g, idx: idx, dir: dirRecv, recv: func(v any, ok bool) {
+	r.C.core.recvq = append(r.C.core.recvq, &waiter{tok: newTok(), g: g, idx: idx, dir: dirRecv, recv: func(v any, ok bool) {
 		if ok {
 			r.V = cast[T](v)
 		}
@@ -145,13 +177,17 @@ func (r *RecvCase[T]) register(g *group, idx int) {
 	}})
 }
 
+//go:norace
 func (r *RecvCase[T]) unregister(g *group) {
 	if r.C != nil {
 		r.C.core.recvq = dropGroup(r.C.core.recvq, g)
 	}
 }
 
-func (r *RecvCase[T]) desc() string  { return "recv " + r.C.String() }
+//go:norace
+func (r *RecvCase[T]) desc() string { return "recv " + r.C.String() }
+
+//go:norace
 func (r *RecvCase[T]) cell() *uint64 { return &r.C.core.hb }
 
 // ---- send case ----
@@ -161,8 +197,10 @@ type SendCase[T any] struct {
 	V T
 }
 
+//go:norace
 func NewSend[T any](c *Chan[T], v T) *SendCase[T] { return &SendCase[T]{C: c, V: v} }
 
+//go:norace
 func (s *SendCase[T]) ready(self *group) bool {
 	c := s.C
 	if c == nil {
@@ -171,6 +209,7 @@ func (s *SendCase[T]) ready(self *group) bool {
 	return c.core.closed || len(c.buf) < c.core.capa || firstOther(c.core.recvq, self) != nil
 }
 
+//go:norace
 func (s *SendCase[T]) exec(self *group) {
 	c := s.C
 	if c.core.closed {
@@ -178,30 +217,39 @@ func (s *SendCase[T]) exec(self *group) {
 	}
 	if w := firstOther(c.core.recvq, self); w != nil && len(c.buf) == 0 {
 		w.recv(s.V, true)
-		complete(w)
+		if c.core.capa == 0 {
+			acq(w.tok) // the parked receive happens before this send completes
+		}
+		complete(w, newTok())
 		return
 	}
 	if len(c.buf) < c.core.capa {
 		c.buf = append(c.buf, s.V)
+		c.toks = append(c.toks, newTok())
 		return
 	}
 	panic("vchan: send exec on a case that is not ready")
 }
 
+//go:norace
 func (s *SendCase[T]) register(g *group, idx int) {
 	if s.C == nil {
 		return
 	}
-	s.C.core.sendq = append(s.C.core.sendq, &waiter{g: g, idx: idx, dir: dirSend, val: func() any { return s.V }})
+	s.C.core.sendq = append(s.C.core.sendq, &waiter{tok: newTok(), g: g, idx: idx, dir: dirSend, val: func() any { return s.V }})
 }
 
+//go:norace
 func (s *SendCase[T]) unregister(g *group) {
 	if s.C != nil {
 		s.C.core.sendq = dropGroup(s.C.core.sendq, g)
 	}
 }
 
-func (s *SendCase[T]) desc() string  { return "send " + s.C.String() }
+//go:norace
+func (s *SendCase[T]) desc() string { return "send " + s.C.String() }
+
+//go:norace
 func (s *SendCase[T]) cell() *uint64 { return &s.C.core.hb }
 
 // ---- external (native) channel case: only "closed-style" channels are supported ----
@@ -214,13 +262,19 @@ type ExtCase[T any] struct {
 
 // NewExt wraps a native channel that is not owned by instrumented code (ctx.Done()).
 // It is ready iff a non-blocking native receive would succeed on a closed channel.
+//
+//go:norace
 func NewExt[T any](c <-chan T) *ExtCase[T] { return &ExtCase[T]{C: c} }
 
+//go:norace
 func (e *ExtCase[T]) ready(self *group) bool {
 	if e.C == nil {
 		return false
 	}
-	// Non-destructive poll: only closed channels are supported (Done-style).
+	// Non-destructive poll: only closed channels are supported (Done-style). The poll is
+	// made by whichever goroutine runs the scheduler, so it must not count as synchronisation.
+	vrt.RaceDisable()
+	defer vrt.RaceEnable()
 	if ch, ok := any(e.C).(<-chan struct{}); ok {
 		select {
 		case _, open := <-ch:
@@ -242,12 +296,30 @@ func (e *ExtCase[T]) ready(self *group) bool {
 	return chosen == 0
 }
 
-func (e *ExtCase[T]) exec(self *group)           { var z T; e.V, e.OK = z, false }
-func (e *ExtCase[T]) register(g *group, idx int) {}
-func (e *ExtCase[T]) unregister(g *group)        {}
-func (e *ExtCase[T]) desc() string               { return "recv ext" }
-func (e *ExtCase[T]) cell() *uint64              { return &vrt.Cur().CancelCell }
+//go:norace
+func (e *ExtCase[T]) exec(self *group) {
+	var z T
+	e.V, e.OK = z, false
+	// the real receive, by the receiving goroutine itself: close happens-before it
+	select {
+	case <-e.C:
+	default:
+	}
+}
 
+//go:norace
+func (e *ExtCase[T]) register(g *group, idx int) {}
+
+//go:norace
+func (e *ExtCase[T]) unregister(g *group) {}
+
+//go:norace
+func (e *ExtCase[T]) desc() string { return "recv ext" }
+
+//go:norace
+func (e *ExtCase[T]) cell() *uint64 { return &vrt.Cur().CancelCell }
+
+//go:norace
 func cast[T any](v any) T {
 	if v == nil {
 		var z T
@@ -256,6 +328,7 @@ func cast[T any](v any) T {
 	return v.(T)
 }
 
+//go:norace
 func dropGroup(q []*waiter, g *group) []*waiter {
 	out := q[:0]
 	for _, w := range q {
@@ -267,17 +340,60 @@ func dropGroup(q []*waiter, g *group) []*waiter {
 }
 
 // complete marks the partner's group as done through waiter w.
-func complete(w *waiter) {
+//
+//go:norace
+func complete(w *waiter, tok *byte) {
 	w.g.done = true
 	w.g.sel = w.idx
+	w.g.gotTok = tok
 	if x := vrt.Cur(); x != nil {
 		w.g.hbFrom = x.HB()
 		w.g.step = x.Steps
 	}
 }
 
+// selectOp is a parked select (named type: see vrt.Enabler).
+type selectOp struct {
+	g          *group
+	cases      []Case
+	hasDefault bool
+}
+
+//go:norace
+func (o *selectOp) Enabled() bool {
+	if o.g.done || o.hasDefault {
+		return true
+	}
+	for _, c := range o.cases {
+		if c.ready(o.g) {
+			return true
+		}
+	}
+	return false
+}
+
+//go:norace
+func (o *selectOp) String() string {
+	if len(o.cases) == 1 && !o.hasDefault {
+		return o.cases[0].desc()
+	}
+	d := "select{"
+	for i, c := range o.cases {
+		if i > 0 {
+			d += ","
+		}
+		d += c.desc()
+	}
+	if o.hasDefault {
+		d += ",default"
+	}
+	return d + "}"
+}
+
 // Select performs a select over cases. It returns the index of the chosen case, or -1
 // for the default arm.
+//
+//go:norace
 func Select(hasDefault bool, cases ...Case) int {
 	x := vrt.Cur()
 	if x == nil {
@@ -293,34 +409,8 @@ func Select(hasDefault bool, cases ...Case) int {
 	for i, c := range cases {
 		c.register(g, i)
 	}
-	descFn := func() string {
-		if len(cases) == 1 && !hasDefault {
-			return cases[0].desc()
-		}
-		d := "select{"
-		for i, c := range cases {
-			if i > 0 {
-				d += ","
-			}
-			d += c.desc()
-		}
-		if hasDefault {
-			d += ",default"
-		}
-		return d + "}"
-	}
-	enabled := func() bool {
-		if g.done || hasDefault {
-			return true
-		}
-		for _, c := range cases {
-			if c.ready(g) {
-				return true
-			}
-		}
-		return false
-	}
-	x.YieldFn(enabled, descFn)
+	op := &selectOp{g: g, cases: cases, hasDefault: hasDefault}
+	x.YieldOp(op, op)
 	// we run now
 	for _, c := range cases {
 		c.unregister(g)
@@ -330,6 +420,7 @@ func Select(hasDefault bool, cases ...Case) int {
 		x.Absorb(g.hbFrom)
 		x.Absorb(0x5e1 + uint64(g.sel))
 		x.Me().LastCommStep = g.step
+		acq(g.gotTok)
 		return g.sel
 	}
 	var ready []int
@@ -360,6 +451,8 @@ func Select(hasDefault bool, cases ...Case) int {
 }
 
 // Send replaces `c <- v`.
+//
+//go:norace
 func (c *Chan[T]) Send(v T) {
 	if x := vrt.Cur(); x == nil || x.Aborting() {
 		return
@@ -371,12 +464,16 @@ func (c *Chan[T]) Send(v T) {
 }
 
 // Recv replaces `<-c`.
+//
+//go:norace
 func (c *Chan[T]) Recv() T {
 	v, _ := c.Recv2()
 	return v
 }
 
 // Recv2 replaces `v, ok := <-c`.
+//
+//go:norace
 func (c *Chan[T]) Recv2() (T, bool) {
 	var zero T
 	if x := vrt.Cur(); x == nil || x.Aborting() {
@@ -391,6 +488,8 @@ func (c *Chan[T]) Recv2() (T, bool) {
 }
 
 // RecvExt replaces `<-ch` on a native close-signalled channel.
+//
+//go:norace
 func RecvExt[T any](ch <-chan T) {
 	if x := vrt.Cur(); x == nil || x.Aborting() {
 		return
@@ -398,11 +497,19 @@ func RecvExt[T any](ch <-chan T) {
 	Select(false, NewExt(ch))
 }
 
+//go:norace
 func blockForever(desc string) {
-	vrt.Cur().Yield(func() bool { return false }, desc)
+	vrt.Cur().YieldOp(vrt.Never, strDesc(desc))
 }
 
+type strDesc string
+
+//go:norace
+func (s strDesc) String() string { return string(s) }
+
 // Close replaces close(c).
+//
+//go:norace
 func (c *Chan[T]) Close() {
 	x := vrt.Cur()
 	if x == nil || x.Aborting() {
@@ -414,18 +521,21 @@ func (c *Chan[T]) Close() {
 	}
 	c.core.closed = true
 	x.Touch(&c.core.hb, 0xc105e)
+	vrt.RaceRelease(unsafe.Pointer(&c.ctok))
 	// blocked receivers complete with the zero value; blocked senders will panic when run
 	for _, w := range c.core.recvq {
 		if !w.g.done {
 			var zero T
 			w.recv(zero, false)
-			complete(w)
+			complete(w, &c.ctok)
 		}
 	}
 	c.core.recvq = nil
 }
 
 // Len replaces len(c); Cap replaces cap(c). Both are scheduling points.
+//
+//go:norace
 func (c *Chan[T]) Len() int {
 	x := vrt.Cur()
 	if x == nil || x.Aborting() {
@@ -436,10 +546,13 @@ func (c *Chan[T]) Len() int {
 	return len(c.buf)
 }
 
+//go:norace
 func (c *Chan[T]) Cap() int { return c.core.capa }
 
 // TrySend is a non-blocking send (used by timers: the runtime drops ticks when the
 // buffer is full). It is a scheduling point.
+//
+//go:norace
 func (c *Chan[T]) TrySend(v T) bool {
 	x := vrt.Cur()
 	if x == nil || x.Aborting() {
@@ -450,6 +563,8 @@ func (c *Chan[T]) TrySend(v T) bool {
 
 // Unreachable is the default arm of every rewritten select: it is only reached while the
 // execution is being torn down (Select returns -2), where it unwinds the thread.
+//
+//go:norace
 func Unreachable() string {
 	if x := vrt.Cur(); x != nil && x.Aborting() {
 		runtime.Goexit()
